@@ -162,6 +162,15 @@ def evaluate(t, env, funcs=None):
                 loc2[bv.args[0]] = k
                 vals.append(ev(body, loc2))
             return tuple(vals)
+        if op == 'prod':
+            bv, lo, hi, body = a
+            l, h = ev(lo, local), ev(hi, local)
+            r = mp.mpf(1)
+            for k in range(l, h):
+                loc2 = dict(local)
+                loc2[bv.args[0]] = k
+                r = r * ev(body, loc2)
+            return r
         if op in ('sum', 'bmax', 'bmin'):
             bv, lo, hi, body = a
             l, h = ev(lo, local), ev(hi, local)
